@@ -13,7 +13,7 @@ const PropertyInfo kInfo = {
     "of a local chunk | STOP | FETCH stream / OUT of a manifest published by another node (not known to this one), with the TOKEN header "
     "{absent, exact, random same length, proper prefix (incl. empty), exact+extra, case-flipped, empty, proper suffix, extra+exact, one bit flipped at any "
     "position, exact value under another header name (X-TOKEN / TOKENS / AUTH) with TOKEN absent}; header lines (COMMAND, TOKEN, PAYLOAD-LENGTH, others) in a "
-    "shuffled order and header names in mixed case. Oracle: the request is authorised iff a TOKEN value was sent and equals the configured token byte for byte. "
+    "shuffled order, header names in mixed case and the command word in upper / lower / mixed case. Oracle: the request is authorised iff a TOKEN value was sent and equals the configured token byte for byte. "
     "Not authorised => STATUS:ERROR (with an authentication CODE when the request is otherwise well-formed, names canonical and the target chunk local) and no effect: chunk set, "
     "manifest cache, swarm plans, shard records and pending fetches unchanged, scratch directory empty, stop callback not invoked, transport port still "
     "accepting connections, next PING answered. Authorised (canonical header names) => normal result (chunk stored under sha256(payload); streamed / "
@@ -180,7 +180,14 @@ void run_case(Ctx& c) {
         std::vector<std::pair<std::string, std::string>> lines;
         Bytes payload;
         std::string out_path;
-        lines.push_back({"COMMAND", kind == kStore ? "STORE" : kind == kStop ? "STOP" : "FETCH"});
+        // the command word itself in upper / lower / mixed case (the server dispatches case-insensitively)
+        std::string cmd_word = kind == kStore ? "STORE" : kind == kStop ? "STOP" : "FETCH";
+        switch (r.a(5) % 4) {
+            case 1: for (auto& ch : cmd_word) ch = static_cast<char>(std::tolower(static_cast<unsigned char>(ch))); c.label("command_word_lower_case"); break;
+            case 2: cmd_word = ctl::case_mix(cmd_word, 1 + r.a(5)); c.label("command_word_mixed_case"); break;
+            default: break;
+        }
+        lines.push_back({"COMMAND", cmd_word});
         if (tc.sent) lines.push_back({"TOKEN", tc.value});
         if (!tc.other_name.empty()) lines.push_back({tc.other_name, token});
         if (kind == kStore) {
